@@ -18,6 +18,9 @@
 (*   n1 n2 .. folded|unfolded "l1" ..   header (pre-1.3: only n1 n2 ..)    *)
 (*   v v v ...                          data, C order                      *)
 (*   0 1 0 ...                          mask, 1 = masked (pre-1.3: absent) *)
+(* The generic array writer / reader also work on an open handle: several  *)
+(* arrays written one after another into one file are read back one after  *)
+(* another from one handle (HandleWrite / HandleRead below).               *)
 (***************************************************************************)
 EXTENDS Rat, Integers, Sequences, FiniteSets
 
@@ -128,6 +131,36 @@ ArrayWrite(a, p, comments) ==
 ArrayRead(file) == LET r == Read(file, FALSE) IN
                    IF ~r.ok THEN r ELSE [ok |-> TRUE, a |-> [sh |-> r.s.sh, d |-> r.s.d], comments |-> r.comments]
 
+\* ---------------- several arrays in one open handle ----------------
+\* array_to_file / array_from_file accept an open file object instead of a name, so that several arrays can be
+\* written one after another into one file and read back one after another from one handle.
+\* A handle is [lines, pos]: the lines of the underlying file and the number of lines already consumed.
+\* A line is [c |-> its characters, t |-> its whitespace-separated tokens]: comment and dimension lines are
+\* looked at as characters, data lines as tokens (a writer fills in the view that is its to define).
+TextLine(cs) == [c |-> cs, t |-> <<>>]
+NumLine(ts)  == [c |-> <<>>, t |-> ts]
+FileLines(file) == [j \in 1..Len(file.pre) |-> TextLine(file.pre[j])] \o [j \in 1..Len(file.body) |-> NumLine(file.body[j])]
+EmptyHandle == [lines |-> <<>>, pos |-> 0]
+\* the writer appends its lines to the handle
+HandleWrite(h, a, p, comments) == [h EXCEPT !.lines = @ \o FileLines(ArrayWrite(a, p, comments))]
+\* number of comment lines at the current position
+CommentRun(h) == LET RECURSIVE run(_)
+                     run(j) == IF h.pos + j + 1 <= Len(h.lines) /\ IsCommentLine(h.lines[h.pos + j + 1].c) THEN run(j + 1) ELSE j
+                 IN run(0)
+\* the file the reader sees at the current position: comment lines, the dimension line, ONE data line
+HandleFile(h) == LET nc == CommentRun(h) IN
+                 [pre  |-> [j \in 1..(nc + 1) |-> h.lines[h.pos + j].c], body |-> <<h.lines[h.pos + nc + 2].t>>]
+\* the reader returns the array at the current position and leaves the handle positioned after its data line
+HandleRead(h) == LET last == h.pos + CommentRun(h) + 2 IN
+                 IF last > Len(h.lines) THEN [ok |-> FALSE]
+                 ELSE LET r == ArrayRead(HandleFile(h)) IN
+                      IF ~r.ok THEN [ok |-> FALSE]
+                      ELSE [ok |-> TRUE, a |-> r.a, comments |-> r.comments, h |-> [h EXCEPT !.pos = last]]
+\* what is left in the handle
+HandleRest(h) == SubSeq(h.lines, h.pos + 1, Len(h.lines))
+\* number of lines one written array occupies
+LinesOf(comments) == Len(comments) + 2
+
 \* ---------------- pickling: the reduce tuple and its inverse ----------------
 Pickle(s, x)  == [data |-> [sh |-> s.sh, d |-> s.d], mask |-> [sh |-> s.sh, m |-> s.m], folded |-> s.f, pop_ids |-> s.ids, extrap_x |-> x]
 Unpickle(t)   == [s |-> [sh |-> t.data.sh, d |-> t.data.d, m |-> t.mask.m, f |-> t.folded, ids |-> t.pop_ids], x |-> t.extrap_x]
@@ -146,5 +179,11 @@ RoundTripOK(s, p, comments, fmi, mc, back, slack) ==
     /\ back.s.m = ExpectedMask(s, fmi, mc)
     /\ back.s.f = (fmi /\ s.f)
     /\ back.s.ids = (IF fmi THEN s.ids ELSE <<>>)
+    /\ back.comments = [j \in 1..Len(comments) |-> Strip(comments[j])]
+\* back = what the reader returned for an array a written with precision p and these comments
+ArrayRoundTripOK(a, p, comments, back, slack) ==
+    /\ back.ok
+    /\ back.a.sh = a.sh
+    /\ SameValues([k \in 1..Size(a.sh) |-> IF a.m[k] THEN "nan" ELSE a.d[k]], back.a.d, p, slack)
     /\ back.comments = [j \in 1..Len(comments) |-> Strip(comments[j])]
 =============================================================================
